@@ -310,7 +310,11 @@ def _last_ident(s):
         return None
     s = s.strip()
     s = re.sub(r"^&('\w+ )?(mut )?", '', s)
-    ids = re.findall(r'[A-Za-z_][A-Za-z_0-9]*', strip_generics(s))
+    try:
+        s2 = strip_generics(s)
+    except ValueError:
+        s2 = s
+    ids = re.findall(r'[A-Za-z_][A-Za-z_0-9]*', s2)
     return ids[-1] if ids else s
 
 
